@@ -205,6 +205,13 @@ type inst struct {
 	// deterministic operations on fresh inputs, accessor values, Equal against a pristine twin,
 	// serializations, behaviour of primitives built before and after. May be nil.
 	observe func() string
+	// mutIn (optional) changes the caller-owned structures that were handed to the operation in ways a byte
+	// scribble cannot (fields of a proto message: strings, enums, slice headers). It runs once, after the inputs were
+	// scribbled; an observation that changes afterwards is a `retained` finding.
+	mutIn func()
+	// mutOut (optional) does the same with the structures the operation returned (an exported proto keyset);
+	// it runs after every returned byte slice was scribbled; a changed observation is an `aliased-internal` finding.
+	mutOut func()
 }
 
 type spec struct {
@@ -407,6 +414,15 @@ func (e *engine) runLayout(s spec, l layout, baseOuts [][]byte, baseRes, baseObs
 				add("retained", "no-input:%s", diffObs(baseObs, obs))
 			}
 		}
+		if it.mutIn != nil {
+			it.mutIn()
+			if it.observe != nil {
+				if obs := it.observe(); obs != prevObs {
+					add("retained", "caller-proto-fields:%s", diffObs(prevObs, obs))
+					prevObs = obs
+				}
+			}
+		}
 		var outs2 [][]byte
 		if !s.once {
 			var res2 string
@@ -452,7 +468,10 @@ func (e *engine) runLayout(s spec, l layout, baseOuts [][]byte, baseRes, baseObs
 				}
 			}
 		}
-		if len(all) > 0 {
+		if it.mutOut != nil {
+			it.mutOut()
+		}
+		if len(all) > 0 || it.mutOut != nil {
 			if it.observe != nil {
 				if obs := it.observe(); obs != baseObs {
 					add("aliased-internal", "%s", diffObs(baseObs, obs))
